@@ -71,7 +71,7 @@ def one_case(rng, tier):
                 'stop_on_delivery': rng.randrange(0, n) if rng.random() < 0.4 else None,
                 'restart_after': rng.choice([0.0, 0.5, 1.5])}
     d = rng.choice(DELIMS)
-    alpha = list(set(list(d) + list(rng.choice(['xy', 'a', 'ab|', 'é中', 'x,'])))) + ['q']
+    alpha = list(set(list(d) + list(rng.choice(['xy', 'a', 'ab|', 'é中', 'x,', 'x\r', '\r\n' if d not in ('\n', '\r\n') else 'y'])))) + ['q']
     recs = []
     for _ in range(rng.randrange(0, 15)):
         body = ''.join(rng.choice(alpha) for _ in range(rng.randrange(0, 6)))
@@ -104,7 +104,7 @@ def one_case(rng, tier):
         t0 = round(rng.uniform(0.3, max(0.4, total)), 2)
         restarts.append([t0, round(t0 + rng.choice([0.0, 0.5, 1.5, 3.0]), 2)])
     return {'kind': 'textfile', 'delimiter': d, 'chunks': chunks, 'gaps': gaps, 'pre': pre, 'from_end': from_end,
-            'poll': 1.0, 'as_path': d != '\r\n' and rng.random() < 0.5, 'restarts': restarts,
+            'poll': 1.0, 'as_path': rng.random() < 0.5, 'restarts': restarts,
             'consumer_svc': rng.choice([0, 0, 0, 1.5, 2.5])}
 
 
